@@ -1060,7 +1060,17 @@ func (x *pexec) bupUnhashableTail(blk *lz.Block, w, n int, c byte) bool {
 
 func (x *pexec) checkOptimal(blk *lz.Block, w, n int) {
 	got := blockCost(blk)
-	opt := optimalCost(x.S, x.off, w, n, x.bc.WindowSize, x.spec.minMatch(), x.spec.maxMatch())
+	var opt uint64
+	if len(x.S) < 1<<14 || x.spec.minMatch() < 2 {
+		opt = optimalCost(x.S, x.off, w, n, x.bc.WindowSize, x.spec.minMatch(), x.spec.maxMatch())
+	} else {
+		var ok bool
+		if opt, ok = x.optimalCostIndexed(w, n); !ok {
+			x.probe("osap_oracle_gave_up")
+			return
+		}
+		x.probe("osap_block_checked_indexed")
+	}
 	x.probe("osap_block_checked")
 	if len(blk.Sequences) >= 2 {
 		x.probe("osap_multi_seq")
@@ -1479,12 +1489,9 @@ func (x *pexec) gsapWindowBlind(blk *lz.Block, w, n int) bool {
 // 2^23 byte comparisons gives up (oracleGaveUp: no verdict, never an alarm).
 const oracleGaveUp = -1
 
-func (x *pexec) longestPrevAt(pos, end int) int {
+// gramIndex extends the two-byte index to all positions below pos.
+func (x *pexec) gramIndex(pos int) {
 	S := x.S
-	if len(S) < 1<<14 || x.spec.minMatch() < 2 {
-		L, _ := longestPrev(S, x.off, pos, end)
-		return L
-	}
 	if x.gram == nil {
 		x.gram = make([][]int32, 1<<16)
 		x.gramN = 0
@@ -1493,6 +1500,76 @@ func (x *pexec) longestPrevAt(pos, end int) int {
 		k := int(S[x.gramN])<<8 | int(S[x.gramN+1])
 		x.gram[k] = append(x.gram[k], int32(x.gramN))
 	}
+}
+
+// optimalCostIndexed is optimalCost for long streams: the same forward
+// dynamic program, with the match sources of a position taken from the
+// two-byte index (every match of MinMatchLen >= 2 starts with the same two
+// bytes as its source). ok=false: more than 2^27 steps, no verdict.
+func (x *pexec) optimalCostIndexed(w, n int) (cost uint64, ok bool) {
+	const inf = ^uint64(0) >> 1
+	S := x.S
+	window, minLen, maxLen := x.bc.WindowSize, x.spec.minMatch(), x.spec.maxMatch()
+	x.gramIndex(w + n)
+	d := make([]uint64, n+1)
+	for i := 1; i <= n; i++ {
+		d[i] = inf
+	}
+	lit := lz.XZCost(1, 0)
+	work := 0
+	for i := 0; i < n; i++ {
+		if c := d[i] + lit; c < d[i+1] {
+			d[i+1] = c
+		}
+		pos := w + i
+		lo := pos - window
+		if lo < x.off {
+			lo = x.off
+		}
+		maxm := n - i
+		if maxm > maxLen {
+			maxm = maxLen
+		}
+		if maxm < minLen || pos+2 > len(S) {
+			continue
+		}
+		for _, f32 := range x.gram[int(S[pos])<<8|int(S[pos+1])] {
+			f := int(f32)
+			if f < lo {
+				continue
+			}
+			if f >= pos {
+				break
+			}
+			m := 0
+			for m < maxm && S[f+m] == S[pos+m] {
+				m++
+			}
+			if work += m + 1; work > 1<<27 {
+				return 0, false
+			}
+			if m < minLen {
+				continue
+			}
+			o := uint32(pos - f)
+			for k := minLen; k <= m; k++ {
+				if c := d[i] + lz.XZCost(uint32(k), o); c < d[i+k] {
+					d[i+k] = c
+				}
+			}
+			work += m
+		}
+	}
+	return d[n], true
+}
+
+func (x *pexec) longestPrevAt(pos, end int) int {
+	S := x.S
+	if len(S) < 1<<14 || x.spec.minMatch() < 2 {
+		L, _ := longestPrev(S, x.off, pos, end)
+		return L
+	}
+	x.gramIndex(pos)
 	if pos+2 > end {
 		return 0 // nothing of two bytes or more fits
 	}
